@@ -3,6 +3,7 @@ package main
 import (
 	"fmt"
 	"go/ast"
+	"go/constant"
 	"go/token"
 	"go/types"
 	"sort"
@@ -13,7 +14,7 @@ import (
 
 func init() {
 	register(&Rule{ID: "R-loop-progress", Floor: 40, Run: ruleLoopProgress,
-		Doc: "every `for` loop of lexer and parser that reads the input cursor (lexer: current/next rune; parser: current token) (P1) passes, on every path from the loop head back to the head, through a call that has moved the cursor when it returns normally — lexer advance, or parser next / a sub-parser whose *errors.Error result is then tested so that a failing call leaves the loop — and (P2) leaves the loop on every path once the input is exhausted (current rune nil / current token EOF, which next() reproduces forever), without dereferencing the nil rune; (P3, lexer) with exactly one rune left no path dereferences the nil look-ahead rune. Together with the finiteness of the input this is termination of the loop; breaking either lets Parse spin or crash on some input (C05). Also decides that next() itself replaces the cursor whenever it returns nil."})
+		Doc: "every `for` loop of lexer and parser that reads the input cursor (lexer: current/next rune; parser: current token) (P1) passes, on every path from the loop head back to the head, through a call that has moved the cursor when it returns normally — lexer advance, or parser next / a sub-parser whose *errors.Error result is then tested so that a failing call leaves the loop — and (P2) leaves the loop on every path once the input is exhausted (current rune nil / current token EOF, which next() reproduces forever), without dereferencing the nil rune; (P3, lexer) with exactly one rune left no path dereferences the nil look-ahead rune. A loop bounded by its own counter (`for i := a; i < n; i++` with i and n untouched by the body) needs neither: it ends like a range loop. Conditions are decided through predicate helpers (`for !self.atEnd()`) and, at end of input, through the binding powers of the EOF token. Together with the finiteness of the input this is termination of the loop; breaking either lets Parse spin or crash on some input (C05). Also decides that next() itself replaces the cursor whenever it returns nil."})
 }
 
 // solve computes the greatest fixpoint of the registered summaries.
@@ -312,6 +313,12 @@ func (r *pxRoles) checkNextBase() Obligation {
 		},
 		IsPanic: func(s ast.Stmt) bool { return IsPanicCall(info, s) },
 		OnStmt: func(s *st, x ast.Stmt) (*st, bool) {
+			// a helper that stores the token on each of its paths (`self.shift(token)`)
+			if es, ok := x.(*ast.ExprStmt); ok {
+				if call, ok := ast.Unparen(es.X).(*ast.CallExpr); ok && r.alwaysStoresCursor(CalleeOf(info, call), 0) {
+					s.assigned = true
+				}
+			}
 			if as, ok := x.(*ast.AssignStmt); ok {
 				for _, l := range as.Lhs {
 					if sel, ok := l.(*ast.SelectorExpr); ok && info.Uses[sel.Sel] == r.curF {
@@ -411,9 +418,13 @@ func (r *pxRoles) loopP1(lp pxLoop) Obligation {
 				fails = append(fails, fmt.Sprintf("path [%s] returns to the loop head without a successful cursor move: %s", strings.Join(after.decisions, ", "), pxConsumingCalls(after)))
 			}
 		}}, nil)
+	counted, cwhy := pxCountedLoop(lp.pk.TypesInfo, lp.loop)
 	switch {
 	case res.overflow || len(res.unsupported) > 0:
 		o.Status, o.Detail = Undecided, "path enumeration overflow or unsupported control flow (goto/select)"
+	case len(fails) > 0 && counted:
+		// a back edge that does not move the cursor is harmless when the loop is bounded by its own counter
+		o.Status, o.Detail = Discharged, fmt.Sprintf("%d back-edge path(s) do not move the cursor, but the loop is counted (%s): it ends by its counter like a range loop", len(fails), cwhy)
 	case len(fails) > 0:
 		sort.Strings(fails)
 		if len(fails) > 4 {
@@ -424,6 +435,159 @@ func (r *pxRoles) loopP1(lp pxLoop) Obligation {
 		o.Status, o.Detail = Discharged, fmt.Sprintf("%d back-edge path(s), each through a successful advance/next or a consuming sub-parser whose error is tested", iters)
 	}
 	return o
+}
+
+// pxCountedLoop: `for i := a; i < B; i++` (or the decreasing mirror image) where
+// the body neither assigns i nor takes its address and the bound B is a
+// constant, a variable the body does not assign, or len/cap/int(...) of such
+// variables. Such a loop is bounded by its counter — it terminates whatever the
+// cursor does, exactly like a range loop (which the rule does not enumerate).
+func pxCountedLoop(info *types.Info, f *ast.ForStmt) (bool, string) {
+	if f.Cond == nil || f.Post == nil {
+		return false, ""
+	}
+	var ctr types.Object
+	up := true
+	switch p := f.Post.(type) {
+	case *ast.IncDecStmt:
+		id, ok := ast.Unparen(p.X).(*ast.Ident)
+		if !ok {
+			return false, ""
+		}
+		ctr, up = info.ObjectOf(id), p.Tok == token.INC
+	case *ast.AssignStmt:
+		if len(p.Lhs) != 1 || len(p.Rhs) != 1 || (p.Tok != token.ADD_ASSIGN && p.Tok != token.SUB_ASSIGN) {
+			return false, ""
+		}
+		id, ok := ast.Unparen(p.Lhs[0]).(*ast.Ident)
+		if !ok {
+			return false, ""
+		}
+		tv := info.Types[p.Rhs[0]]
+		if tv.Value == nil || tv.Value.Kind() != constant.Int || constant.Sign(tv.Value) <= 0 {
+			return false, ""
+		}
+		ctr, up = info.ObjectOf(id), p.Tok == token.ADD_ASSIGN
+	default:
+		return false, ""
+	}
+	if ctr == nil {
+		return false, ""
+	}
+	if b, ok := ctr.Type().Underlying().(*types.Basic); !ok || b.Info()&types.IsInteger == 0 {
+		return false, ""
+	}
+	cond, ok := ast.Unparen(f.Cond).(*ast.BinaryExpr)
+	if !ok {
+		return false, ""
+	}
+	isCtr := func(e ast.Expr) bool {
+		id, ok := ast.Unparen(e).(*ast.Ident)
+		return ok && info.Uses[id] == ctr
+	}
+	var bound ast.Expr
+	switch {
+	case isCtr(cond.X) && ((up && (cond.Op == token.LSS || cond.Op == token.LEQ)) || (!up && (cond.Op == token.GTR || cond.Op == token.GEQ))):
+		bound = cond.Y
+	case isCtr(cond.Y) && ((up && (cond.Op == token.GTR || cond.Op == token.GEQ)) || (!up && (cond.Op == token.LSS || cond.Op == token.LEQ))):
+		bound = cond.X
+	default:
+		return false, ""
+	}
+	// objects the body (or post) assigns / takes the address of
+	assigned := map[types.Object]bool{}
+	mark := func(e ast.Expr) {
+		for {
+			switch x := ast.Unparen(e).(type) {
+			case *ast.Ident:
+				if ob := info.ObjectOf(x); ob != nil {
+					assigned[ob] = true
+				}
+				return
+			case *ast.IndexExpr:
+				e = x.X
+			case *ast.StarExpr:
+				e = x.X
+			case *ast.SelectorExpr:
+				if ob := info.Uses[x.Sel]; ob != nil {
+					assigned[ob] = true
+				}
+				e = x.X
+			default:
+				return
+			}
+		}
+	}
+	opaque := false
+	ast.Inspect(f.Body, func(n ast.Node) bool {
+		switch x := n.(type) {
+		case *ast.FuncLit:
+			opaque = true
+		case *ast.AssignStmt:
+			for _, l := range x.Lhs {
+				mark(l)
+			}
+		case *ast.IncDecStmt:
+			mark(x.X)
+		case *ast.UnaryExpr:
+			if x.Op == token.AND {
+				mark(x.X)
+			}
+		case *ast.RangeStmt:
+			if x.Tok == token.ASSIGN {
+				if x.Key != nil {
+					mark(x.Key)
+				}
+				if x.Value != nil {
+					mark(x.Value)
+				}
+			}
+		}
+		return true
+	})
+	if opaque || assigned[ctr] {
+		return false, ""
+	}
+	var stable func(e ast.Expr) bool
+	stable = func(e ast.Expr) bool {
+		e = ast.Unparen(e)
+		if tv, ok := info.Types[e]; ok && tv.Value != nil {
+			return true
+		}
+		switch x := e.(type) {
+		case *ast.Ident:
+			ob := info.Uses[x]
+			v, isVar := ob.(*types.Var)
+			// a local / parameter the body does not assign (package-level state could be changed by a callee)
+			return isVar && !assigned[ob] && !v.IsField() && v.Pkg() != nil && v.Parent() != v.Pkg().Scope()
+		case *ast.CallExpr:
+			if len(x.Args) != 1 {
+				return false
+			}
+			if tv, ok := info.Types[x.Fun]; ok && tv.IsType() {
+				return stable(x.Args[0]) // conversion
+			}
+			if id, ok := ast.Unparen(x.Fun).(*ast.Ident); ok {
+				if b, ok := info.Uses[id].(*types.Builtin); ok && (b.Name() == "len" || b.Name() == "cap") {
+					return stable(x.Args[0])
+				}
+			}
+		case *ast.BinaryExpr:
+			switch x.Op {
+			case token.ADD, token.SUB, token.MUL, token.QUO:
+				return stable(x.X) && stable(x.Y)
+			}
+		}
+		return false
+	}
+	if !stable(bound) {
+		return false, ""
+	}
+	dir := "++"
+	if !up {
+		dir = "--"
+	}
+	return true, fmt.Sprintf("%s%s against the loop-invariant bound %s", ctr.Name(), dir, exprStr(bound))
 }
 
 // P2: at end of input every path leaves the loop.
@@ -448,6 +612,10 @@ func (r *pxRoles) loopP2(lp pxLoop) Obligation {
 			}
 			fails = append(fails, fmt.Sprintf("with the input exhausted, path [%s] returns to the loop head (the cursor cannot move any more: the loop never ends)", strings.Join(after.decisions, ", ")))
 		}}, func(st *pxState, oc outcome) { collect(st) })
+	if counted, _ := pxCountedLoop(lp.pk.TypesInfo, lp.loop); counted {
+		// bounded by its counter: returning to the head at end of input is harmless (faults still count)
+		fails = nil
+	}
 	switch {
 	case res.overflow || len(res.unsupported) > 0:
 		o.Status, o.Detail = Undecided, "path enumeration overflow or unsupported control flow (goto/select)"
@@ -521,10 +689,7 @@ func (r *pxRoles) checkEOFAbsorbing() Obligation {
 			return
 		}
 		n++
-		kind := ""
-		if call, ok := ast.Unparen(oc.ret.Results[0]).(*ast.CallExpr); ok && CalleeOf(info, call) == r.lex.newToken && len(call.Args) > 0 {
-			kind = r.canonKind(info, call.Args[0])
-		}
+		kind := r.tokenKindOf(info, fd, oc.ret.Results[0], 0)
 		isNil := false
 		if id, ok := ast.Unparen(oc.ret.Results[1]).(*ast.Ident); ok {
 			_, isNil = info.Uses[id].(*types.Nil)
@@ -542,4 +707,100 @@ func (r *pxRoles) checkEOFAbsorbing() Obligation {
 		o.Status, o.Detail = Discharged, fmt.Sprintf("%d feasible path(s) with the current rune nil, each returns newToken(%s, …), nil without moving", n, r.eof)
 	}
 	return o
+}
+
+// alwaysStoresCursor: every path through g (a parser function without result)
+// assigns the cursor field: an assignment to it among the top-level statements
+// of the body, before any return.
+func (r *pxRoles) alwaysStoresCursor(g *types.Func, depth int) bool {
+	gd := r.decls[g]
+	if g == nil || gd == nil || gd.Body == nil || r.declPkg[g] != r.pkg || depth > 2 {
+		return false
+	}
+	for _, s := range gd.Body.List {
+		switch x := s.(type) {
+		case *ast.ReturnStmt:
+			return false
+		case *ast.AssignStmt:
+			for _, l := range x.Lhs {
+				if sel, ok := l.(*ast.SelectorExpr); ok && r.info.Uses[sel.Sel] == r.curF {
+					return true
+				}
+			}
+		case *ast.ExprStmt:
+			if call, ok := ast.Unparen(x.X).(*ast.CallExpr); ok && r.alwaysStoresCursor(CalleeOf(r.info, call), depth+1) {
+				return true
+			}
+		case *ast.IfStmt, *ast.ForStmt, *ast.RangeStmt, *ast.SwitchStmt, *ast.TypeSwitchStmt, *ast.SelectStmt:
+			// a nested return could leave before the store
+			hasRet := false
+			ast.Inspect(x, func(n ast.Node) bool {
+				if _, ok := n.(*ast.ReturnStmt); ok {
+					hasRet = true
+				}
+				return !hasRet
+			})
+			if hasRet {
+				return false
+			}
+		}
+	}
+	return false
+}
+
+// tokenKindOf: the kind of the token an expression of the lexer builds — a call of the token
+// constructor with a constant kind, a local holding one (single definition), a composite
+// literal of the token type with a constant kind field, or a call of a helper every return of
+// which is such a token. "" when not a constant.
+func (r *pxRoles) tokenKindOf(info *types.Info, fd *ast.FuncDecl, e ast.Expr, depth int) string {
+	e = ast.Unparen(e)
+	switch x := e.(type) {
+	case *ast.Ident:
+		if def := pxLocalDefsOf(info, fd).single(info.Uses[x]); def != nil && def != e {
+			return r.tokenKindOf(info, fd, def, depth+1)
+		}
+	case *ast.CompositeLit:
+		if t := info.TypeOf(x); t != nil && types.Identical(t, r.tokenT) {
+			for _, el := range x.Elts {
+				if kv, ok := el.(*ast.KeyValueExpr); ok {
+					if id, ok := kv.Key.(*ast.Ident); ok && info.Uses[id] == r.kindF {
+						return r.canonKind(info, kv.Value)
+					}
+				}
+			}
+		}
+	case *ast.CallExpr:
+		g := CalleeOf(info, x)
+		if g == nil {
+			return ""
+		}
+		if g == r.lex.newToken && len(x.Args) > 0 {
+			return r.canonKind(info, x.Args[0])
+		}
+		gd := r.decls[g]
+		if gd == nil || gd.Body == nil || depth > 2 || r.declPkg[g] != r.lex.pkg {
+			return ""
+		}
+		ginfo := r.declPkg[g].TypesInfo
+		kind, n := "", 0
+		same := true
+		ast.Inspect(gd.Body, func(m ast.Node) bool {
+			if _, ok := m.(*ast.FuncLit); ok {
+				return false
+			}
+			if ret, ok := m.(*ast.ReturnStmt); ok && len(ret.Results) >= 1 {
+				k := r.tokenKindOf(ginfo, gd, ret.Results[0], depth+1)
+				if n > 0 && k != kind {
+					same = false
+				}
+				kind = k
+				n++
+			}
+			return true
+		})
+		if n > 0 && same {
+			return kind
+		}
+	}
+	return ""
 }
